@@ -226,23 +226,39 @@ def run(R):
     pe = R.body("C08.expiry", RF + "::prune_expired_keys_and_slow_nodes")
     if pe is not None:
         prep(pe)
-        # closure: time_out < now ⇒ dropped
+        # closure: kept ⇔ ¬(time_out < now); an expired entry's holder is recorded (pushed) before it is dropped
+        from rules import closure_truth_table
         okc = False
         for c in F.item(RF + "::prune_expired_keys_and_slow_nodes"):
             if c.kind != "closure":
                 continue
             prep(c)
             now = Taint(c).closure(call_results(["*Instant::now", "tokio::time::instant::Instant::now", "std::time::Instant::now"])(c))
-            for s in compare_sites(c):
-                if (op_local(s["b"]) in now and s["op"] == "Lt") or (op_local(s["a"]) in now and s["op"] == "Gt"):
-                    tr = Tracker(c)
-                    tr.seed_bool(s["d"], True)
-                    tr.run()
-                    g = cfg_of(c)
-                    push = {b["id"] for b in c.blocks if b["term"]["k"] == "call" and callee_matches(b["term"], ["alloc::vec::Vec::push"])}
-                    rf = set(RetSink("false").blocks(c))
-                    if tr.accept and all((g.reach((d,)) & push) and (g.reach((d,)) & rf) and not (g.reach((d,)) & set(RetSink("true").blocks(c))) for _, d in tr.accept):
-                        okc = True
+            if not now:
+                continue
+
+            def classify(b_, cs, now=now):
+                la, lb = op_local(cs["a"]), op_local(cs["b"])
+                if lb in now and la not in now:
+                    return {"Lt": ("E", True), "Ge": ("E", False)}.get(cs["op"])
+                if la in now and lb not in now:
+                    return {"Gt": ("E", True), "Le": ("E", False)}.get(cs["op"])
+                return None
+            tt = closure_truth_table(c, classify)
+            if tt is None or tt[0] != ["E"] or any(v != (not dict(k)["E"]) for k, v in tt[1].items()):
+                continue
+            g = cfg_of(c)
+            push = {b["id"] for b in c.blocks if b["term"]["k"] == "call" and not b["cleanup"] and callee_matches(b["term"], ["alloc::vec::Vec::push"])}
+            rets = {b["id"] for b in c.blocks if b["term"]["k"] == "return" and not b["cleanup"]}
+            tr = Tracker(c)
+            for s_ in compare_sites(c):
+                k_ = classify(c, s_)
+                if k_:
+                    tr.seed_bool(s_["d"], k_[1])
+            tr.run()
+            from rules import final_edges
+            if tr.accept and push and all(not (g.reach((d,), avoid=push) & rets) for _, d in final_edges(g, tr.accept)):
+                okc = True
         if not okc:
             R.viol("C08.expiry", "expiry-polarity", "an in-flight entry with time_out < now is not dropped and recorded as failed", pe, pe.lines[0])
         R.inst("C08.expiry", "K10 polarity", "time_out < now ⇒ entry dropped and holder recorded", 1, okc)
@@ -280,7 +296,7 @@ def liveness_rules(R):
     for b in F.bodies.values():
         if b.crate != "ant_networking" or "::tests::" in b.path:
             continue
-        for c in b.calls:
+        for c in b.calls_raw:
             nc = c["ncallee"] or ""
             at = c.get("arg_tys") or []
             if at and "HashMap<(libp2p_kad::record::Key, ant_protocol::storage::header::RecordType), (libp2p_identity::peer_id::PeerId" in at[0]:
